@@ -121,7 +121,9 @@ def check(case):
             model.save(mdir)
             before = tree_digest(mdir)
             try:
-                model.save(mdir)
+                import attr as _attr
+                other = _attr.evolve(model, feed_mass=[m * 1.5 + 0.25 for m in model.feed_mass], feed_temperature=[t + 1.0 for t in model.feed_temperature], comments='second model')
+                other.save(mdir)
                 after = tree_digest(mdir)
                 for k, v in before.items():
                     if after.get(k) != v: fails.append("name collision: a second save overwrote %s of an existing process directory" % k)
